@@ -196,7 +196,9 @@ fn convert_hgignore_glob(glob: &str, file_path: &Path) -> Result<Regex, Error> {
             .to_string()
             .replace("\\", "\\\\")
             .add("/([^/]+/)*")
-            .add(&pattern);
+            .add(&pattern)
+            // a glob matches whole path components: `*.o` must not match `a.obj`
+            .add("(/|$)");
 
         Regex::new(&pattern)
     }
